@@ -322,6 +322,13 @@ def schedules(fam):
             steps += [inj("a", sh), Q]
         steps += [ev("a", "custom"), Q]
         out.append(S(fam, "connsysshapes", steps))
+        # client frames that are no request at all (empty, blank, not an object, cut short, without an id): discarded,
+        # the connection and every other connection go on
+        steps = [opn("c1"), opn("c2"), sub("c2", "a"), Q]
+        for fr in ("", " \r\n\t", "[]", "42", "null", '"x"', "{", '{"id":', "{}", '{"method":"subscribe.b"}', '{"id":"1","method":"subscribe.b"}', "\x00", "}{"):
+            steps += [{"op": "raw", "c": "c1", "raw": fr}, Q]
+        steps += [sub("c1", "b"), Q, ev("a", "custom"), ev("b", "custom"), Q, unsub("c2", "a"), Q]
+        out.append(S(fam, "clientframes", steps))
     if fam.startswith("thr-ref"):
         # references added by one change event after the subscription has been loaded are fetched under the same limit
         stt = dict(settle=True)
